@@ -15,7 +15,9 @@
 # define UNREACH_CONTRACT VERIF_CONTRACT(__CPROVER_requires(0) __CPROVER_ensures(1) __CPROVER_assigns())
 #endif
 struct dt_dt_s UNREACH_dt_get_base(void) UNREACH_CONTRACT;
+struct dt_d_s UNREACH_dt_dadd(struct dt_d_s d, struct dt_ddur_s dur) UNREACH_CONTRACT;
 
+#if defined VERIF_TU_DT_CORE
 /* epoch seconds -> (day count, h:m:s), incl. negative epochs */
 #define PRE___sexy_to_daisy(sx) ((sx) >= SX_MIN && (sx) <= SX_MAX)
 #define POST___sexy_to_daisy(ret, sx) \
@@ -30,6 +32,7 @@ CONTRACT(PRE___sexy_to_daisy(sx), POST___sexy_to_daisy(RV, sx));
 static inline dt_ssexy_t __to_unix_epoch(struct dt_dt_s dt)
 CONTRACT(PRE___to_unix_epoch(dt), POST___to_unix_epoch(RV, dt));
 
+#endif /* VERIF_TU_DT_CORE */
 /* adding hours / minutes / seconds to a sandwich */
 #define HMS_UNIT(t) ((t) == DT_DURH ? 3600LL : (t) == DT_DURM ? 60LL : 1LL)
 #define PRE_dt_dtadd_hms(d, dur) \
@@ -39,10 +42,20 @@ CONTRACT(PRE___to_unix_epoch(dt), POST___to_unix_epoch(RV, dt));
 #define POST_dt_dtadd_hms(ret, d, dur) \
 	((ret).sandwich == 1 && (ret).d.typ == (d).d.typ && V_d((ret).d) && (ret).t.typ == DT_HMS && V_HMS((ret).t) && \
 	 U_DT(ret) == U_DT(d) + (dur).dv * HMS_UNIT((dur).durtyp))
+/* time-only values (no date part): the time of day moves by the increment reduced to less than a day, the day overflow of that
+ * reduced step is left in t.carry (-1, 0, 1) and the date slot is untouched */
+#define T_ONLY(x) ((x).sandwich == 1 && (x).d.typ == DT_DUNK && (x).t.typ == DT_HMS && V_HMS((x).t))
+#define HMS_STEP(dur) ((dur).dv * HMS_UNIT((dur).durtyp))
+#define PRE_dt_dtadd_tonly(d, dur) \
+	(T_ONLY(d) && ((dur).durtyp == DT_DURH || (dur).durtyp == DT_DURM || (dur).durtyp == DT_DURS) && (dur).tai == 0 && \
+	 HMS_STEP(dur) >= -2147483647LL && HMS_STEP(dur) <= 2147483647LL)
+#define POST_dt_dtadd_tonly(ret, d, dur) \
+	(T_ONLY(ret) && (ret).d.u == (d).d.u && (ret).t.hms.ns == (d).t.hms.ns && (ret).t.carry >= -1 && (ret).t.carry <= 1 && \
+	 (long long)SSM((ret).t) + 86400LL * (long long)(ret).t.carry == (long long)SSM((d).t) + HMS_STEP(dur) % 86400LL)
+#define PRE_dt_dtadd(d, dur) (PRE_dt_dtadd_hms(d, dur) || PRE_dt_dtadd_tonly(d, dur))
+#define POST_dt_dtadd(ret, d, dur) (T_ONLY(d) ? POST_dt_dtadd_tonly(ret, d, dur) : POST_dt_dtadd_hms(ret, d, dur))
 struct dt_dt_s dt_dtadd(struct dt_dt_s d, struct dt_dtdur_s dur)
-CONTRACT(PRE_dt_dtadd_hms(d, dur), POST_dt_dtadd_hms(RV, d, dur));
-#define PRE_dt_dtadd(d, dur) PRE_dt_dtadd_hms(d, dur)
-#define POST_dt_dtadd(ret, d, dur) POST_dt_dtadd_hms(ret, d, dur)
+CONTRACT(PRE_dt_dtadd(d, dur), POST_dt_dtadd(RV, d, dur));
 
 /* difference of two sandwiches in seconds */
 #define PRE_dt_dtdiff_s(tgt, d1, d2) ((tgt) == DT_DURS && V_SANDWICH(d1) && V_SANDWICH(d2) && DIFF_T((d1).d.typ) && DIFF_T((d2).d.typ))
